@@ -931,7 +931,28 @@ func (e RxEngine) Run(t *testing.T, ctx *kit.Ctx, sc *kit.Scenario[RxConfig, RxO
 				res.Violation = &kit.Violation{Class: "C04/allocation-out-of-proportion", Key: "engine-receive-path", Step: step,
 					Detail: fmt.Sprintf("a %d-byte frame made the application engine allocate %d bytes", len(frame), grewApp)}
 			}
-			_, _, derr := spec.ReadPacket(enc.NewBufferReader(append([]byte(nil), frame...)))
+			pkt, _, derr := spec.ReadPacket(enc.NewBufferReader(append([]byte(nil), frame...)))
+			if derr == nil && pkt != nil {
+				// what the decoder returned is printed by whoever logs the packet (the router and the sync layer do
+				// at their default level): the text form of a name is part of what a byte sequence can make a
+				// receiver allocate
+				var nm enc.Name
+				if pkt.Interest != nil {
+					nm = pkt.Interest.NameV
+				} else if pkt.Data != nil {
+					nm = pkt.Data.NameV
+				}
+				if len(nm) > 0 {
+					runtime.ReadMemStats(&ms)
+					t0 := ms.TotalAlloc
+					txt := nm.String()
+					runtime.ReadMemStats(&ms)
+					if g := ms.TotalAlloc - t0; res.Violation == nil && g > uint64(64<<10+16*len(frame)) {
+						res.Violation = &kit.Violation{Class: "C04/allocation-out-of-proportion", Key: "name-text-form", Step: step,
+							Detail: fmt.Sprintf("printing the name of a decoded %d-byte packet (%d characters) allocated %d bytes", len(frame), len(txt), g)}
+					}
+				}
+			}
 			if derr != nil {
 				ctx.Probe("frame-failed-to-decode")
 				if res.Violation == nil && (dispatched != d0 || stateDigest() != before) {
